@@ -279,6 +279,7 @@ fn measure_point(rep: &Report, dir: &'static str, via: &'static str, size: usize
 pub fn run(rep: &'static Report) {
     let seed = rep.seed;
     rep.set_rule("E-GRID + MON: both directions x {hooked loop at production chunk size, key mode, password mode} x input sizes n*cs+d (n in {0,1,2,3,4,8,16,64}, thorough adds 1024 and 16384 = 1 GiB; d in {0,1}) x {full reads / 64 KiB chunks, 1 KiB pieces / 1 KiB chunks}, from non-allocating synthetic sources into counting sinks; peak live heap per call from the counting allocator and the read/write lag at every chunk completion. distinct non-trivial = distinct (direction, via, size, piece) points with >= 2 chunks");
+    rep.rule_add("CLI streams through stdin/stdout, FIFO, -o fresh/pre-existing (growth polled), non-blocking stdout with a stalled reader; streams of 16 vs 256/1024 chunks of pairwise different lengths.");
     rep.assume("extrapolation beyond the largest size rests on the loop state being independent of the chunk index; the synthetic decrypt source allocates one record at a time (constant, included in the measured peak)");
     let ids = idents(seed);
     let salt = derive32(seed, "c11-salt");
